@@ -27,6 +27,8 @@ pub fn verify_last_layer(
 // `point` is the value at which the polynomial will be evaluated.
 // The function returns the polynomial evaluation as `felt252`.
 fn horner_eval(coefs: &[Felt], point: Felt) -> Felt {
+    #[cfg(swiftness_verif)]
+    swiftness_transcript::verif::tick("fri.horner", 1 + coefs.len() as u64);
     let mut result = Felt::from(0);
     for coef in coefs.iter().rev() {
         result = result * point + coef;
